@@ -1,3 +1,1398 @@
-use crate::common::{Args, engine_error};
+//! C14 — "Map resource gives read-your-writes with per-type isolation".
+//!
+//! Technique: explicit-state breadth-first search over operation sequences executed on a REAL `Pie`, compared step by
+//! step with a plain reference model. `Pie` is not `Clone`, so every transition `(state, op)` is executed by replaying
+//! the representative operation path of `state` on a fresh `Pie` and then applying `op`.
+//!
+//! * State = model state = for each resource type in {K1, K2, K3, RA, RB} what is stored in pie's typed state for
+//!   that resource type: nothing, `Shared(u8)`, `Other(bool)` or a map of some key type. The global map of key type
+//!   `K` IS the state of resource type `K` (`HashMap<K, K::Value>`), so e.g. `set::<Other>` on K1's state wipes K1's
+//!   map and the next map access of K1 replaces `Other` by an empty map (documented behaviour of
+//!   `get_or_set_default`); the model follows that faithfully. (This fixed array is the
+//!   `Map<ResourceType, Option<(StateType, value)>>` + "one plain map per key type" of the design.)
+//! * The implementation's state is fully observable without side effects (`get_boxed` + downcasts, `get::<S>` for all
+//!   five state types on all five resource types) and is compared with the model after the last operation of every
+//!   executed path; where the model says a key type's state is a map, all keys are additionally read through
+//!   `Resource::read`, `MapWriter::get`, `GetGlobalMap`, stamped through the three stamping routes (`stamp` with the
+//!   resource state, `stamp_reader`, `stamp_writer`), and `MapEqualsChecker::check` is evaluated against every stamp
+//!   value of the alphabet and against every real stamp recorded earlier along the path.
+//! * In-task routes and pie's overlap detection: pie panics ("Overlapping write" / "Hidden dependency") when two
+//!   DIFFERENT tasks write the same key or one reads what another wrote without a dependency. C14 is about the map
+//!   resource, not about that detection, so the harness uses exactly ONE task identity per (key type, key),
+//!   `KeyTask<K>(key)`. What the task does (write through `Context::write`, write through `create_writer` +
+//!   `written_to`, read through `Context::read`, `MapWriter::get` on a created writer) is given by a harness-controlled
+//!   thread-local command cell. Every execution first reads the harness key `Tick` of the map resource; the harness
+//!   stores a new tick through `Pie::resource_state_mut` before every step, so the task is inconsistent and re-executed
+//!   whenever it is required (top-down) or scheduled by `schedule_tasks_affected_by(&Tick)` (bottom-up; tasks of other
+//!   keys that get re-executed find a command not addressed to them and only read the tick). A task never reads and
+//!   writes its key in the same execution. No two task identities ever touch the same key, so no path of the alphabet
+//!   can trigger the overlap/hidden-dependency panics; any panic is reported as a violation.
+//! * The dependency store of pie is hidden state that the model state does not contain (which `KeyTask`s exist). To
+//!   cover it, besides the BFS to a fixed point over model states, ALL operation paths up to a small depth are executed
+//!   without any state merging.
 
-pub fn run(_args: &Args) -> i32 { engine_error("not implemented yet") }
+use std::any::Any;
+use std::cell::{Cell, RefCell};
+use std::collections::hash_map::Entry;
+use std::collections::{BTreeSet, HashMap};
+use std::convert::Infallible;
+use std::fmt::Debug;
+use std::panic::{catch_unwind, AssertUnwindSafe};
+use std::sync::atomic::{AtomicUsize, Ordering};
+use std::time::Instant;
+
+use serde_json::{json, Value};
+
+use pie::resource::map::{GetGlobalMap, MapEqualsChecker, MapKey, MapWriter};
+use pie::tracker::Tracker;
+use pie::trait_object::{KeyObj, ValueObj};
+use pie::{Context, Pie, Resource, ResourceChecker, ResourceState, Task};
+
+use crate::common::{engine_error, Args, Report, Tier, Violation};
+
+// ---------------------------------------------------------------------------------------------------------------------
+// Reference model
+// ---------------------------------------------------------------------------------------------------------------------
+
+/// Key types of the map resource.
+#[derive(Clone, Copy, PartialEq, Eq, Hash, PartialOrd, Ord, Debug)]
+pub enum KT { K1, K2, K3 }
+
+/// Resource types whose typed state is modelled.
+#[derive(Clone, Copy, PartialEq, Eq, Hash, PartialOrd, Ord, Debug)]
+pub enum Res { K1, K2, K3, RA, RB }
+
+pub const ALL_RES: [Res; 5] = [Res::K1, Res::K2, Res::K3, Res::RA, Res::RB];
+pub const ALL_KT: [KT; 3] = [KT::K1, KT::K2, KT::K3];
+
+impl KT {
+  pub fn res(self) -> Res { match self { KT::K1 => Res::K1, KT::K2 => Res::K2, KT::K3 => Res::K3 } }
+  fn name(self) -> &'static str { match self { KT::K1 => "K1", KT::K2 => "K2", KT::K3 => "K3" } }
+}
+
+impl Res {
+  fn idx(self) -> usize { self as usize }
+  fn name(self) -> &'static str { match self { Res::K1 => "K1", Res::K2 => "K2", Res::K3 => "K3", Res::RA => "RA", Res::RB => "RB" } }
+}
+
+/// State types used by typed state accesses. `M1` = `HashMap<K1, u8>`, i.e. the type of K1's global map.
+#[derive(Clone, Copy, PartialEq, Eq, Hash, PartialOrd, Ord, Debug)]
+pub enum ST { Shared, Other, M1 }
+
+impl ST {
+  fn name(self) -> &'static str { match self { ST::Shared => "Shared", ST::Other => "Other", ST::M1 => "M1" } }
+}
+
+/// What is stored for one resource type. Map values are value indices (0/1) for keys 0/1.
+#[derive(Clone, Copy, PartialEq, Eq, Hash, PartialOrd, Ord, Debug)]
+pub enum Slot { Absent, Shared(u8), Other(bool), Map(KT, [Option<u8>; 2]) }
+
+fn enc(v: Option<u8>) -> i16 { match v { None => 0, Some(v) => v as i16 + 1 } }
+fn opt_code(v: Option<u8>) -> i16 { match v { None => -1, Some(v) => v as i16 } }
+
+impl Slot {
+  fn is_st(self, st: ST) -> bool {
+    matches!((self, st), (Slot::Shared(_), ST::Shared) | (Slot::Other(_), ST::Other) | (Slot::Map(KT::K1, _), ST::M1))
+  }
+  fn mk(st: ST, v: u8) -> Slot {
+    match st { ST::Shared => Slot::Shared(v), ST::Other => Slot::Other(v == 1), ST::M1 => Slot::Map(KT::K1, [Some(v), None]) }
+  }
+  fn default_of(st: ST) -> Slot {
+    match st { ST::Shared => Slot::Shared(0), ST::Other => Slot::Other(false), ST::M1 => Slot::Map(KT::K1, [None, None]) }
+  }
+  /// The harness' in-place mutation of a state value (same function on the implementation side, `StT::flip`).
+  fn flip(self) -> Slot {
+    match self {
+      Slot::Shared(v) => Slot::Shared(1 - v),
+      Slot::Other(b) => Slot::Other(!b),
+      Slot::Map(kt, [a, b]) => Slot::Map(kt, [a, if b.is_some() { None } else { Some(1) }]),
+      Slot::Absent => Slot::Absent,
+    }
+  }
+  /// Observation code of a state value.
+  fn code(self) -> i16 {
+    match self {
+      Slot::Absent => -1,
+      Slot::Shared(v) => v as i16,
+      Slot::Other(b) => b as i16,
+      Slot::Map(_, [a, b]) => 100 + enc(a) * 3 + enc(b),
+    }
+  }
+  fn code_as(self, st: ST) -> i16 { if self.is_st(st) { self.code() } else { -1 } }
+  fn text(self) -> String {
+    match self {
+      Slot::Absent => "-".into(),
+      Slot::Shared(v) => format!("Shared({})", v),
+      Slot::Other(b) => format!("Other({})", b),
+      Slot::Map(kt, [a, b]) => {
+        let mut parts = Vec::new();
+        if let Some(a) = a { parts.push(format!("0:{}", a)); }
+        if let Some(b) = b { parts.push(format!("1:{}", b)); }
+        format!("Map<{}>{{{}}}", kt.name(), parts.join(","))
+      }
+    }
+  }
+}
+
+#[derive(Clone, Copy, PartialEq, Eq, Hash, PartialOrd, Ord, Debug)]
+pub struct Model { pub slots: [Slot; 5] }
+
+#[derive(Clone, Copy, PartialEq, Eq, Hash, PartialOrd, Ord, Debug)]
+pub enum MapOp { Insert(u8), Remove, OrInsert(u8) }
+
+/// How a `MapWriter` / map is obtained for a write.
+#[derive(Clone, Copy, PartialEq, Eq, Hash, PartialOrd, Ord, Debug)]
+pub enum WRoute {
+  /// (a) inside a task: `Context::write(&key, MapEqualsChecker, |w| ..)`.
+  CtxWrite,
+  /// (b) inside a task: `Context::create_writer` + `Context::written_to`.
+  CreateWriter,
+  /// (c) directly: `pie.resource_state_mut::<K>().get_global_map_mut()`.
+  GlobalMap,
+  /// (d) directly: `Resource::write(&key, pie.resource_state_mut::<K>())` (a `MapWriter` outside any task).
+  ResWrite,
+}
+
+#[derive(Clone, Copy, PartialEq, Eq, Hash, PartialOrd, Ord, Debug)]
+pub enum RRoute {
+  /// inside a task: `Context::read(&key, MapEqualsChecker)` (+ `stamp_reader` on the reader, + pie's own read stamp).
+  CtxRead,
+  /// inside a task: `Context::create_writer(&key)` then `MapWriter::get` / `get_mut` (no dependency).
+  TaskWriterGet,
+  GlobalMap,
+  GlobalMapMut,
+  ResRead,
+  ResWrite,
+  Stamp,
+  Check,
+}
+
+#[derive(Clone, Copy, PartialEq, Eq, Hash, PartialOrd, Ord, Debug)]
+pub enum TypedOp { Get, GetMut, Set(u8), GetBoxed, GetBoxedMut, SetBoxed(u8), Gosd, GosdMut }
+
+#[derive(Clone, Copy, PartialEq, Eq, Hash, PartialOrd, Ord, Debug)]
+pub enum Op {
+  Map { kt: KT, key: u8, route: WRoute, bottom_up: bool, op: MapOp },
+  Read { kt: KT, key: u8, route: RRoute, bottom_up: bool },
+  Typed { res: Res, st: ST, op: TypedOp },
+}
+
+/// Labelled observations of one operation. Values: -1 = None/absent, 0/1 = value index or bool, 100.. = map code,
+/// 998/999 = not observed / not decodable.
+pub type Obs = Vec<(&'static str, i16)>;
+
+impl Op {
+  fn in_task(&self) -> bool {
+    match self {
+      Op::Map { route, .. } => matches!(route, WRoute::CtxWrite | WRoute::CreateWriter),
+      Op::Read { route, .. } => matches!(route, RRoute::CtxRead | RRoute::TaskWriterGet),
+      Op::Typed { .. } => false,
+    }
+  }
+
+  pub fn text(&self) -> String {
+    let mode = |in_task: bool, bu: bool| if !in_task { "-" } else if bu { "bu" } else { "td" };
+    match *self {
+      Op::Map { kt, key, route, bottom_up, op } => {
+        let r = match route { WRoute::CtxWrite => "ctx_write", WRoute::CreateWriter => "create_writer", WRoute::GlobalMap => "global_map", WRoute::ResWrite => "res_write" };
+        let o = match op { MapOp::Insert(v) => format!("insert:{}", v), MapOp::Remove => "remove:-".to_string(), MapOp::OrInsert(v) => format!("or_insert:{}", v) };
+        format!("map:{}:{}:{}:{}:{}", kt.name(), key, r, mode(self.in_task(), bottom_up), o)
+      }
+      Op::Read { kt, key, route, bottom_up } => {
+        let r = match route {
+          RRoute::CtxRead => "ctx_read", RRoute::TaskWriterGet => "task_writer_get", RRoute::GlobalMap => "global_map", RRoute::GlobalMapMut => "global_map_mut",
+          RRoute::ResRead => "res_read", RRoute::ResWrite => "res_write", RRoute::Stamp => "stamp", RRoute::Check => "check",
+        };
+        format!("read:{}:{}:{}:{}", kt.name(), key, r, mode(self.in_task(), bottom_up))
+      }
+      Op::Typed { res, st, op } => {
+        let o = match op {
+          TypedOp::Get => "get:-".to_string(), TypedOp::GetMut => "get_mut:-".to_string(), TypedOp::Set(v) => format!("set:{}", v),
+          TypedOp::GetBoxed => "get_boxed:-".to_string(), TypedOp::GetBoxedMut => "get_boxed_mut:-".to_string(), TypedOp::SetBoxed(v) => format!("set_boxed:{}", v),
+          TypedOp::Gosd => "get_or_set_default:-".to_string(), TypedOp::GosdMut => "get_or_set_default_mut:-".to_string(),
+        };
+        format!("typed:{}:{}:{}", res.name(), st.name(), o)
+      }
+    }
+  }
+
+  pub fn parse(s: &str) -> Option<Op> {
+    let p: Vec<&str> = s.split(':').collect();
+    let kt = |x: &str| match x { "K1" => Some(KT::K1), "K2" => Some(KT::K2), "K3" => Some(KT::K3), _ => None };
+    let bit = |x: &str| match x { "0" => Some(0u8), "1" => Some(1u8), _ => None };
+    match p.as_slice() {
+      ["map", k, key, r, m, o, v] => {
+        let route = match *r { "ctx_write" => WRoute::CtxWrite, "create_writer" => WRoute::CreateWriter, "global_map" => WRoute::GlobalMap, "res_write" => WRoute::ResWrite, _ => return None };
+        let op = match *o { "insert" => MapOp::Insert(bit(v)?), "remove" => MapOp::Remove, "or_insert" => MapOp::OrInsert(bit(v)?), _ => return None };
+        Some(Op::Map { kt: kt(k)?, key: bit(key)?, route, bottom_up: *m == "bu", op })
+      }
+      ["read", k, key, r, m] => {
+        let route = match *r {
+          "ctx_read" => RRoute::CtxRead, "task_writer_get" => RRoute::TaskWriterGet, "global_map" => RRoute::GlobalMap, "global_map_mut" => RRoute::GlobalMapMut,
+          "res_read" => RRoute::ResRead, "res_write" => RRoute::ResWrite, "stamp" => RRoute::Stamp, "check" => RRoute::Check, _ => return None,
+        };
+        Some(Op::Read { kt: kt(k)?, key: bit(key)?, route, bottom_up: *m == "bu" })
+      }
+      ["typed", r, s, o, v] => {
+        let res = match *r { "K1" => Res::K1, "K2" => Res::K2, "K3" => Res::K3, "RA" => Res::RA, "RB" => Res::RB, _ => return None };
+        let st = match *s { "Shared" => ST::Shared, "Other" => ST::Other, "M1" => ST::M1, _ => return None };
+        let op = match *o {
+          "get" => TypedOp::Get, "get_mut" => TypedOp::GetMut, "set" => TypedOp::Set(bit(v)?), "get_boxed" => TypedOp::GetBoxed,
+          "get_boxed_mut" => TypedOp::GetBoxedMut, "set_boxed" => TypedOp::SetBoxed(bit(v)?), "get_or_set_default" => TypedOp::Gosd,
+          "get_or_set_default_mut" => TypedOp::GosdMut, _ => return None,
+        };
+        Some(Op::Typed { res, st, op })
+      }
+      _ => None,
+    }
+  }
+}
+
+impl Model {
+  pub fn initial() -> Model { Model { slots: [Slot::Absent; 5] } }
+
+  pub fn text(&self) -> String {
+    ALL_RES.iter().map(|r| format!("{}={}", r.name(), self.slots[r.idx()].text())).collect::<Vec<_>>().join(" ")
+  }
+
+  /// The global map of key type `kt` if (and only if) the state of resource type `kt` currently is such a map.
+  pub fn map_of(&self, kt: KT) -> Option<[Option<u8>; 2]> {
+    match self.slots[kt.res().idx()] { Slot::Map(k, m) if k == kt => Some(m), _ => None }
+  }
+
+  /// `get_or_set_default(_mut)::<HashMap<K, V>>` on the state of resource type K: anything else is replaced.
+  fn ensure_map(&mut self, kt: KT) -> &mut [Option<u8>; 2] {
+    let i = kt.res().idx();
+    if self.map_of(kt).is_none() { self.slots[i] = Slot::Map(kt, [None, None]); }
+    match &mut self.slots[i] { Slot::Map(_, m) => m, _ => unreachable!() }
+  }
+
+  /// Applies `op` and returns the observations the documentation predicts. `tick` = the number of the step (the value
+  /// the harness stores under `Tick` before the step).
+  pub fn apply(&mut self, op: Op, tick: u32) -> Obs {
+    let mut obs: Obs = Vec::new();
+    if op.in_task() { obs.push(("tick", tick as i16)); }
+    match op {
+      Op::Map { kt, key, route, op: mop, .. } => {
+        let m = self.ensure_map(kt);
+        let k = key as usize;
+        let ret = match mop {
+          MapOp::Insert(v) => { let prev = m[k]; m[k] = Some(v); opt_code(prev) }
+          MapOp::Remove => { let prev = m[k]; m[k] = None; opt_code(prev) }
+          MapOp::OrInsert(v) => { let cur = m[k].unwrap_or(v); m[k] = Some(cur); cur as i16 }
+        };
+        let after = opt_code(m[k]);
+        obs.push(("ret", ret));
+        obs.push(("after_get", after));
+        match route {
+          WRoute::CtxWrite => obs.push(("tracker_write_stamp", after)),
+          WRoute::CreateWriter => { obs.push(("stamp_writer", after)); obs.push(("tracker_write_stamp", after)); }
+          WRoute::GlobalMap => {}
+          WRoute::ResWrite => obs.push(("stamp_writer", after)),
+        }
+      }
+      Op::Read { kt, key, route, .. } => {
+        let v = opt_code(self.ensure_map(kt)[key as usize]);
+        match route {
+          RRoute::CtxRead => { obs.push(("read", v)); obs.push(("stamp_reader", v)); obs.push(("tracker_read_stamp", v)); }
+          RRoute::TaskWriterGet => { obs.push(("writer_get", v)); obs.push(("writer_get_mut", v)); }
+          RRoute::GlobalMap | RRoute::GlobalMapMut => obs.push(("read", v)),
+          RRoute::ResRead => { obs.push(("read", v)); obs.push(("stamp_reader", v)); }
+          RRoute::ResWrite => { obs.push(("writer_get", v)); obs.push(("writer_get_mut", v)); }
+          RRoute::Stamp => obs.push(("stamp", v)),
+          RRoute::Check => obs.push(("check_against_none_consistent", (v == -1) as i16)),
+        }
+      }
+      Op::Typed { res, st, op: top } => {
+        let i = res.idx();
+        let cur = self.slots[i];
+        match top {
+          TypedOp::Get => obs.push(("get", cur.code_as(st))),
+          TypedOp::GetMut => { obs.push(("get_mut", cur.code_as(st))); if cur.is_st(st) { self.slots[i] = cur.flip(); } }
+          TypedOp::Set(v) | TypedOp::SetBoxed(v) => self.slots[i] = Slot::mk(st, v),
+          TypedOp::GetBoxed => { obs.push(("boxed_some", (cur != Slot::Absent) as i16)); obs.push(("boxed_as_S", cur.code_as(st))); }
+          TypedOp::GetBoxedMut => {
+            obs.push(("boxed_some", (cur != Slot::Absent) as i16));
+            obs.push(("boxed_as_S", cur.code_as(st)));
+            if cur.is_st(st) { self.slots[i] = cur.flip(); } else if cur != Slot::Absent { self.slots[i] = Slot::mk(st, 1); }
+          }
+          TypedOp::Gosd => { if !cur.is_st(st) { self.slots[i] = Slot::default_of(st); } obs.push(("get_or_set_default", self.slots[i].code())); }
+          TypedOp::GosdMut => {
+            if !cur.is_st(st) { self.slots[i] = Slot::default_of(st); }
+            obs.push(("get_or_set_default_mut", self.slots[i].code()));
+            self.slots[i] = self.slots[i].flip();
+          }
+        }
+      }
+    }
+    if op.in_task() {
+      obs.push(("execs", 1));
+      obs.push(("cmd_consumed", 1));
+      obs.push(("dep_check_errors", 0));
+    }
+    obs
+  }
+}
+
+/// Operation alphabet of a tier (deterministic order).
+pub fn alphabet(tier: Tier) -> Vec<Op> {
+  let thorough = tier == Tier::Thorough;
+  let kts: &[KT] = if thorough { &[KT::K1, KT::K2, KT::K3] } else { &[KT::K1, KT::K2] };
+  let modes: &[bool] = &[false, true];
+  let mut ops = Vec::new();
+  for &kt in kts {
+    for key in 0..2u8 {
+      for route in [WRoute::CtxWrite, WRoute::CreateWriter, WRoute::GlobalMap, WRoute::ResWrite] {
+        let in_task = matches!(route, WRoute::CtxWrite | WRoute::CreateWriter);
+        for &bottom_up in if in_task { modes } else { &[false][..] } {
+          for op in [MapOp::Insert(0), MapOp::Insert(1), MapOp::Remove, MapOp::OrInsert(0), MapOp::OrInsert(1)] {
+            ops.push(Op::Map { kt, key, route, bottom_up, op });
+          }
+        }
+      }
+      for route in [RRoute::CtxRead, RRoute::TaskWriterGet, RRoute::GlobalMap, RRoute::GlobalMapMut, RRoute::ResRead, RRoute::ResWrite, RRoute::Stamp, RRoute::Check] {
+        let in_task = matches!(route, RRoute::CtxRead | RRoute::TaskWriterGet);
+        for &bottom_up in if in_task { modes } else { &[false][..] } {
+          ops.push(Op::Read { kt, key, route, bottom_up });
+        }
+      }
+    }
+  }
+  let typed = [TypedOp::Get, TypedOp::GetMut, TypedOp::Set(0), TypedOp::Set(1), TypedOp::GetBoxed, TypedOp::GetBoxedMut,
+    TypedOp::SetBoxed(0), TypedOp::SetBoxed(1), TypedOp::Gosd, TypedOp::GosdMut];
+  for res in [Res::RA, Res::RB, Res::K1] {
+    for st in [ST::Shared, ST::Other] {
+      for op in typed { ops.push(Op::Typed { res, st, op }); }
+    }
+  }
+  if thorough {
+    // The type of K1's global map stored under another resource type (must stay invisible to K1), and stored
+    // directly under K1 (a legitimate "store through the resource state").
+    for res in [Res::RA, Res::K1] {
+      for op in typed { ops.push(Op::Typed { res, st: ST::M1, op }); }
+    }
+  }
+  ops
+}
+
+// ---------------------------------------------------------------------------------------------------------------------
+// Implementation side: key types, resource types, state types
+// ---------------------------------------------------------------------------------------------------------------------
+
+#[derive(Copy, Clone, PartialEq, Eq, Hash, PartialOrd, Ord, Debug)]
+pub struct K1(pub u8);
+/// Same representation, same derives and same value type as `K1`: aliasing between them would be a bug.
+#[derive(Copy, Clone, PartialEq, Eq, Hash, PartialOrd, Ord, Debug)]
+pub struct K2(pub u8);
+#[derive(Copy, Clone, PartialEq, Eq, Hash, PartialOrd, Ord, Debug)]
+pub struct K3(pub bool);
+/// Harness key that every `KeyTask` reads; changed before every step to force re-execution.
+#[derive(Copy, Clone, PartialEq, Eq, Hash, PartialOrd, Ord, Debug)]
+pub struct Tick;
+
+impl MapKey for K1 { type Value = u8; }
+impl MapKey for K2 { type Value = u8; }
+impl MapKey for K3 { type Value = String; }
+impl MapKey for Tick { type Value = u32; }
+
+pub trait KeyT: MapKey<Value: Clone + Eq + Debug> + Copy {
+  const KT: KT;
+  fn mk(key: u8) -> Self;
+  fn val(v: u8) -> Self::Value;
+  /// Value index of a stored value; 999 for a value outside the alphabet.
+  fn unval(v: &Self::Value) -> i16;
+  fn stamps(s: &mut Stamps) -> &mut [Vec<Option<Self::Value>>; 2];
+}
+
+impl KeyT for K1 {
+  const KT: KT = KT::K1;
+  fn mk(key: u8) -> Self { K1(key) }
+  fn val(v: u8) -> u8 { v }
+  fn unval(v: &u8) -> i16 { if *v <= 1 { *v as i16 } else { 999 } }
+  fn stamps(s: &mut Stamps) -> &mut [Vec<Option<u8>>; 2] { &mut s.k1 }
+}
+impl KeyT for K2 {
+  const KT: KT = KT::K2;
+  fn mk(key: u8) -> Self { K2(key) }
+  fn val(v: u8) -> u8 { v }
+  fn unval(v: &u8) -> i16 { if *v <= 1 { *v as i16 } else { 999 } }
+  fn stamps(s: &mut Stamps) -> &mut [Vec<Option<u8>>; 2] { &mut s.k2 }
+}
+impl KeyT for K3 {
+  const KT: KT = KT::K3;
+  fn mk(key: u8) -> Self { K3(key == 1) }
+  fn val(v: u8) -> String { v.to_string() }
+  fn unval(v: &String) -> i16 { match v.as_str() { "0" => 0, "1" => 1, _ => 999 } }
+  fn stamps(s: &mut Stamps) -> &mut [Vec<Option<String>>; 2] { &mut s.k3 }
+}
+
+/// Real stamps recorded along a path, per key type and key (distinct values only).
+#[derive(Default)]
+pub struct Stamps {
+  k1: [Vec<Option<u8>>; 2],
+  k2: [Vec<Option<u8>>; 2],
+  k3: [Vec<Option<String>>; 2],
+}
+
+fn code<K: KeyT>(v: Option<&K::Value>) -> i16 { match v { None => -1, Some(v) => K::unval(v) } }
+
+/// Two resource types of the harness that store the SAME state type, with trivial readers/writers.
+#[derive(Copy, Clone, PartialEq, Eq, Hash, Debug)]
+pub struct RA;
+#[derive(Copy, Clone, PartialEq, Eq, Hash, Debug)]
+pub struct RB;
+
+macro_rules! trivial_resource {
+  ($t:ty) => {
+    impl Resource for $t {
+      type Reader<'rs> = ();
+      type Writer<'r> = ();
+      type Error = Infallible;
+      fn read<'rs, RS: ResourceState<Self>>(&self, _state: &'rs mut RS) -> Result<(), Infallible> { Ok(()) }
+      fn write<'r, RS: ResourceState<Self>>(&'r self, _state: &'r mut RS) -> Result<(), Infallible> { Ok(()) }
+    }
+  };
+}
+trivial_resource!(RA);
+trivial_resource!(RB);
+
+#[derive(Clone, Default, PartialEq, Eq, Debug)]
+pub struct Shared(pub u8);
+#[derive(Clone, Default, PartialEq, Eq, Debug)]
+pub struct Other(pub bool);
+
+/// A state type of the typed-state alphabet (implementation side of `ST`).
+trait StT: Any + Default {
+  fn mk(v: u8) -> Self;
+  fn flip(&mut self);
+  fn code(&self) -> i16;
+}
+
+impl StT for Shared {
+  fn mk(v: u8) -> Self { Shared(v) }
+  fn flip(&mut self) { self.0 = 1 - self.0; }
+  fn code(&self) -> i16 { if self.0 <= 1 { self.0 as i16 } else { 999 } }
+}
+impl StT for Other {
+  fn mk(v: u8) -> Self { Other(v == 1) }
+  fn flip(&mut self) { self.0 = !self.0; }
+  fn code(&self) -> i16 { self.0 as i16 }
+}
+impl StT for HashMap<K1, u8> {
+  fn mk(v: u8) -> Self { let mut m = HashMap::new(); m.insert(K1(0), v); m }
+  fn flip(&mut self) { if self.remove(&K1(1)).is_none() { self.insert(K1(1), 1); } }
+  fn code(&self) -> i16 { map_code::<K1>(self) }
+}
+
+/// Decodes a real map into the model's `[value of key 0, value of key 1]`; `None` if it holds anything else.
+fn map_entries<K: KeyT>(m: &HashMap<K, K::Value>) -> Option<[Option<u8>; 2]> {
+  let mut out = [None, None];
+  let mut n = 0;
+  for key in 0..2u8 {
+    if let Some(v) = m.get(&K::mk(key)) {
+      let c = K::unval(v);
+      if !(0..=1).contains(&c) { return None; }
+      out[key as usize] = Some(c as u8);
+      n += 1;
+    }
+  }
+  if n != m.len() { return None; }
+  Some(out)
+}
+
+fn map_code<K: KeyT>(m: &HashMap<K, K::Value>) -> i16 {
+  match map_entries::<K>(m) { Some([a, b]) => 100 + enc(a) * 3 + enc(b), None => 999 }
+}
+
+/// Side-effect free description of a boxed state value.
+#[derive(Clone, PartialEq, Eq, Debug)]
+enum Desc { Slot(Slot), TickMap(Option<u32>, usize), Unknown }
+
+fn describe(any: &dyn Any) -> Desc {
+  if let Some(s) = any.downcast_ref::<Shared>() { return if s.0 <= 1 { Desc::Slot(Slot::Shared(s.0)) } else { Desc::Unknown }; }
+  if let Some(s) = any.downcast_ref::<Other>() { return Desc::Slot(Slot::Other(s.0)); }
+  if let Some(m) = any.downcast_ref::<HashMap<K1, u8>>() { return map_entries::<K1>(m).map_or(Desc::Unknown, |e| Desc::Slot(Slot::Map(KT::K1, e))); }
+  if let Some(m) = any.downcast_ref::<HashMap<K2, u8>>() { return map_entries::<K2>(m).map_or(Desc::Unknown, |e| Desc::Slot(Slot::Map(KT::K2, e))); }
+  if let Some(m) = any.downcast_ref::<HashMap<K3, String>>() { return map_entries::<K3>(m).map_or(Desc::Unknown, |e| Desc::Slot(Slot::Map(KT::K3, e))); }
+  if let Some(m) = any.downcast_ref::<HashMap<Tick, u32>>() { return Desc::TickMap(m.get(&Tick).copied(), m.len()); }
+  Desc::Unknown
+}
+
+fn describe_res<R: Resource>(pie: &Pie<Rec>) -> Desc {
+  match pie.resource_state::<R>().get_boxed() { None => Desc::Slot(Slot::Absent), Some(b) => describe(&**b) }
+}
+
+/// `get::<S>` for all five state types on resource type `R`: [Shared, Other, Map<K1>, Map<K2>, Map<K3>].
+fn typed_gets<R: Resource>(pie: &Pie<Rec>) -> [i16; 5] {
+  let s = pie.resource_state::<R>();
+  [
+    s.get::<Shared>().map_or(-1, |x| x.code()),
+    s.get::<Other>().map_or(-1, |x| x.code()),
+    s.get::<HashMap<K1, u8>>().map_or(-1, map_code::<K1>),
+    s.get::<HashMap<K2, u8>>().map_or(-1, map_code::<K2>),
+    s.get::<HashMap<K3, String>>().map_or(-1, map_code::<K3>),
+  ]
+}
+
+fn expected_typed_gets(slot: Slot) -> [i16; 5] {
+  let mut e = [-1i16; 5];
+  match slot {
+    Slot::Absent => {}
+    Slot::Shared(_) => e[0] = slot.code(),
+    Slot::Other(_) => e[1] = slot.code(),
+    Slot::Map(kt, _) => e[2 + kt as usize] = slot.code(),
+  }
+  e
+}
+
+// ---------------------------------------------------------------------------------------------------------------------
+// Tracker, command cell, the one task identity per key
+// ---------------------------------------------------------------------------------------------------------------------
+
+/// Records the stamps pie itself creates for read/write dependencies: (is_write, resource, stamp) in Debug form.
+#[derive(Default)]
+pub struct Rec { events: Vec<(bool, String, String)> }
+
+impl Tracker for Rec {
+  fn read_end(&mut self, resource: &dyn KeyObj, _checker: &dyn ValueObj, stamp: &dyn ValueObj) {
+    self.events.push((false, format!("{:?}", resource), format!("{:?}", stamp)));
+  }
+  fn write_end(&mut self, resource: &dyn KeyObj, _checker: &dyn ValueObj, stamp: &dyn ValueObj) {
+    self.events.push((true, format!("{:?}", resource), format!("{:?}", stamp)));
+  }
+}
+
+#[derive(Clone, Copy, PartialEq, Eq, Debug)]
+enum What { Write { create_writer: bool, op: MapOp }, CtxRead, WriterGet }
+
+#[derive(Clone, Copy, PartialEq, Eq, Debug)]
+struct Cmd { kt: KT, key: u8, what: What }
+
+thread_local! {
+  static CMD: RefCell<Option<Cmd>> = const { RefCell::new(None) };
+  static ADDR: Cell<Option<(KT, u8)>> = const { Cell::new(None) };
+  static EXECS: Cell<i16> = const { Cell::new(0) };
+}
+
+fn writer_apply<K: KeyT>(w: &mut MapWriter<'_, K>, op: MapOp) -> i16 {
+  match op {
+    MapOp::Insert(v) => code::<K>(w.insert(K::val(v)).as_ref()),
+    MapOp::Remove => match w.entry() {
+      Entry::Occupied(e) => code::<K>(Some(&e.remove())),
+      Entry::Vacant(_) => -1,
+    },
+    MapOp::OrInsert(v) => { let x = w.entry().or_insert(K::val(v)).clone(); code::<K>(Some(&x)) }
+  }
+}
+
+fn hashmap_apply<K: KeyT>(m: &mut HashMap<K, K::Value>, key: K, op: MapOp) -> i16 {
+  match op {
+    MapOp::Insert(v) => code::<K>(m.insert(key, K::val(v)).as_ref()),
+    MapOp::Remove => match m.entry(key) {
+      Entry::Occupied(e) => code::<K>(Some(&e.remove())),
+      Entry::Vacant(_) => -1,
+    },
+    MapOp::OrInsert(v) => { let x = m.entry(key).or_insert(K::val(v)).clone(); code::<K>(Some(&x)) }
+  }
+}
+
+/// The single task identity that ever touches key `self.0` of key type `K` (see module documentation).
+#[derive(Clone, PartialEq, Eq, Hash, Debug)]
+struct KeyTask<K>(K);
+
+impl<K: KeyT> Task for KeyTask<K> {
+  type Output = Obs;
+  fn execute<C: Context>(&self, context: &mut C) -> Obs {
+    let mut obs: Obs = Vec::new();
+    let tick = context.read(&Tick, MapEqualsChecker).unwrap().copied();
+    obs.push(("tick", tick.map_or(-1, |t| t as i16)));
+    let me = (K::KT, if self.0 == K::mk(1) { 1u8 } else { 0u8 });
+    if ADDR.with(|a| a.get()) == Some(me) { EXECS.with(|e| e.set(e.get() + 1)); }
+    let cmd = CMD.with(|c| {
+      let mut c = c.borrow_mut();
+      match *c { Some(cmd) if (cmd.kt, cmd.key) == me => c.take(), _ => None }
+    });
+    let Some(cmd) = cmd else { return obs; };
+    match cmd.what {
+      What::Write { create_writer: false, op } => {
+        let (mut ret, mut after) = (998, 998);
+        context.write(&self.0, MapEqualsChecker, |w| {
+          ret = writer_apply::<K>(w, op);
+          after = code::<K>(w.get());
+          Ok(())
+        }).unwrap();
+        obs.push(("ret", ret));
+        obs.push(("after_get", after));
+      }
+      What::Write { create_writer: true, op } => {
+        let mut w = context.create_writer(&self.0).unwrap();
+        obs.push(("ret", writer_apply::<K>(&mut w, op)));
+        obs.push(("after_get", code::<K>(w.get())));
+        let stamp = ResourceChecker::<K>::stamp_writer(&MapEqualsChecker, &self.0, w).unwrap();
+        obs.push(("stamp_writer", code::<K>(stamp.as_ref())));
+        context.written_to(&self.0, MapEqualsChecker).unwrap();
+      }
+      What::CtxRead => {
+        let mut reader = context.read(&self.0, MapEqualsChecker).unwrap();
+        obs.push(("read", code::<K>(reader)));
+        let stamp = ResourceChecker::<K>::stamp_reader(&MapEqualsChecker, &self.0, &mut reader).unwrap();
+        obs.push(("stamp_reader", code::<K>(stamp.as_ref())));
+      }
+      What::WriterGet => {
+        let mut w = context.create_writer(&self.0).unwrap();
+        obs.push(("writer_get", code::<K>(w.get())));
+        obs.push(("writer_get_mut", code::<K>(w.get_mut().map(|x| &*x))));
+      }
+    }
+    obs
+  }
+}
+
+fn decode_stamp_dbg<K: KeyT>(s: &str) -> i16 {
+  if s == "None" { return -1; }
+  for v in 0..2u8 {
+    if s == format!("{:?}", Some(K::val(v))) { return v as i16; }
+  }
+  999
+}
+
+fn run_task<K: KeyT>(pie: &mut Pie<Rec>, key: u8, what: What, bottom_up: bool) -> Obs {
+  CMD.with(|c| *c.borrow_mut() = Some(Cmd { kt: K::KT, key, what }));
+  ADDR.with(|a| a.set(Some((K::KT, key))));
+  EXECS.with(|e| e.set(0));
+  pie.tracker_mut().events.clear();
+  let task = KeyTask(K::mk(key));
+  let (mut obs, errors) = {
+    let mut session = pie.new_session();
+    if bottom_up {
+      let mut build = session.create_bottom_up_build();
+      build.schedule_tasks_affected_by(&Tick);
+      build.update_affected_tasks();
+    }
+    let out = session.require(&task);
+    let n = session.dependency_check_errors().len();
+    (out, n)
+  };
+  let key_dbg = format!("{:?}", K::mk(key));
+  let tracker_stamp = |is_write: bool, events: &[(bool, String, String)]| {
+    events.iter().rev().find(|(w, r, _)| *w == is_write && *r == key_dbg).map_or(998, |(_, _, s)| decode_stamp_dbg::<K>(s))
+  };
+  match what {
+    What::Write { .. } => obs.push(("tracker_write_stamp", tracker_stamp(true, &pie.tracker().events))),
+    What::CtxRead => obs.push(("tracker_read_stamp", tracker_stamp(false, &pie.tracker().events))),
+    What::WriterGet => {}
+  }
+  obs.push(("execs", EXECS.with(|e| e.get())));
+  obs.push(("cmd_consumed", CMD.with(|c| c.borrow_mut().take().is_none()) as i16));
+  obs.push(("dep_check_errors", errors as i16));
+  ADDR.with(|a| a.set(None));
+  obs
+}
+
+// ---------------------------------------------------------------------------------------------------------------------
+// Executing one operation on the real Pie
+// ---------------------------------------------------------------------------------------------------------------------
+
+fn exec_map<K: KeyT>(pie: &mut Pie<Rec>, key: u8, route: WRoute, bottom_up: bool, op: MapOp) -> Obs {
+  let k = K::mk(key);
+  match route {
+    WRoute::CtxWrite => run_task::<K>(pie, key, What::Write { create_writer: false, op }, bottom_up),
+    WRoute::CreateWriter => run_task::<K>(pie, key, What::Write { create_writer: true, op }, bottom_up),
+    WRoute::GlobalMap => {
+      let m = GetGlobalMap::<K>::get_global_map_mut(pie.resource_state_mut::<K>());
+      let ret = hashmap_apply::<K>(m, k, op);
+      vec![("ret", ret), ("after_get", code::<K>(m.get(&k)))]
+    }
+    WRoute::ResWrite => {
+      let mut w = Resource::write(&k, pie.resource_state_mut::<K>()).unwrap();
+      let ret = writer_apply::<K>(&mut w, op);
+      let after = code::<K>(w.get());
+      let stamp = ResourceChecker::<K>::stamp_writer(&MapEqualsChecker, &k, w).unwrap();
+      vec![("ret", ret), ("after_get", after), ("stamp_writer", code::<K>(stamp.as_ref()))]
+    }
+  }
+}
+
+fn exec_read<K: KeyT>(pie: &mut Pie<Rec>, key: u8, route: RRoute, bottom_up: bool) -> Obs {
+  let k = K::mk(key);
+  match route {
+    RRoute::CtxRead => run_task::<K>(pie, key, What::CtxRead, bottom_up),
+    RRoute::TaskWriterGet => run_task::<K>(pie, key, What::WriterGet, bottom_up),
+    RRoute::GlobalMap => vec![("read", code::<K>(GetGlobalMap::<K>::get_global_map(pie.resource_state_mut::<K>()).get(&k)))],
+    RRoute::GlobalMapMut => vec![("read", code::<K>(GetGlobalMap::<K>::get_global_map_mut(pie.resource_state_mut::<K>()).get(&k)))],
+    RRoute::ResRead => {
+      let mut reader = Resource::read(&k, pie.resource_state_mut::<K>()).unwrap();
+      let v = code::<K>(reader);
+      let stamp = ResourceChecker::<K>::stamp_reader(&MapEqualsChecker, &k, &mut reader).unwrap();
+      vec![("read", v), ("stamp_reader", code::<K>(stamp.as_ref()))]
+    }
+    RRoute::ResWrite => {
+      let mut w = Resource::write(&k, pie.resource_state_mut::<K>()).unwrap();
+      let g = code::<K>(w.get());
+      let gm = code::<K>(w.get_mut().map(|x| &*x));
+      vec![("writer_get", g), ("writer_get_mut", gm)]
+    }
+    RRoute::Stamp => {
+      let stamp = ResourceChecker::<K>::stamp(&MapEqualsChecker, &k, pie.resource_state_mut::<K>()).unwrap();
+      vec![("stamp", code::<K>(stamp.as_ref()))]
+    }
+    RRoute::Check => {
+      let none: Option<K::Value> = None;
+      let consistent = ResourceChecker::<K>::check(&MapEqualsChecker, &k, pie.resource_state_mut::<K>(), &none).unwrap().is_none();
+      vec![("check_against_none_consistent", consistent as i16)]
+    }
+  }
+}
+
+fn exec_typed<R: Resource, S: StT>(pie: &mut Pie<Rec>, op: TypedOp) -> Obs {
+  match op {
+    TypedOp::Get => vec![("get", pie.resource_state::<R>().get::<S>().map_or(-1, |s| s.code()))],
+    TypedOp::GetMut => match pie.resource_state_mut::<R>().get_mut::<S>() {
+      Some(s) => { let c = s.code(); s.flip(); vec![("get_mut", c)] }
+      None => vec![("get_mut", -1)],
+    },
+    TypedOp::Set(v) => { pie.resource_state_mut::<R>().set::<S>(S::mk(v)); vec![] }
+    TypedOp::GetBoxed => match pie.resource_state::<R>().get_boxed() {
+      None => vec![("boxed_some", 0), ("boxed_as_S", -1)],
+      Some(b) => vec![("boxed_some", 1), ("boxed_as_S", (**b).downcast_ref::<S>().map_or(-1, |s| s.code()))],
+    },
+    TypedOp::GetBoxedMut => match pie.resource_state_mut::<R>().get_boxed_mut() {
+      None => vec![("boxed_some", 0), ("boxed_as_S", -1)],
+      Some(b) => {
+        let c = match (**b).downcast_mut::<S>() {
+          Some(s) => { let c = s.code(); s.flip(); c }
+          None => { *b = Box::new(S::mk(1)); -1 }
+        };
+        vec![("boxed_some", 1), ("boxed_as_S", c)]
+      }
+    },
+    TypedOp::SetBoxed(v) => { pie.resource_state_mut::<R>().set_boxed(Box::new(S::mk(v))); vec![] }
+    TypedOp::Gosd => vec![("get_or_set_default", pie.resource_state_mut::<R>().get_or_set_default::<S>().code())],
+    TypedOp::GosdMut => {
+      let s = pie.resource_state_mut::<R>().get_or_set_default_mut::<S>();
+      let c = s.code();
+      s.flip();
+      vec![("get_or_set_default_mut", c)]
+    }
+  }
+}
+
+fn exec_op(pie: &mut Pie<Rec>, op: Op) -> Obs {
+  match op {
+    Op::Map { kt, key, route, bottom_up, op } => match kt {
+      KT::K1 => exec_map::<K1>(pie, key, route, bottom_up, op),
+      KT::K2 => exec_map::<K2>(pie, key, route, bottom_up, op),
+      KT::K3 => exec_map::<K3>(pie, key, route, bottom_up, op),
+    },
+    Op::Read { kt, key, route, bottom_up } => match kt {
+      KT::K1 => exec_read::<K1>(pie, key, route, bottom_up),
+      KT::K2 => exec_read::<K2>(pie, key, route, bottom_up),
+      KT::K3 => exec_read::<K3>(pie, key, route, bottom_up),
+    },
+    Op::Typed { res, st, op } => {
+      macro_rules! by_st {
+        ($r:ty) => { match st { ST::Shared => exec_typed::<$r, Shared>(pie, op), ST::Other => exec_typed::<$r, Other>(pie, op), ST::M1 => exec_typed::<$r, HashMap<K1, u8>>(pie, op) } };
+      }
+      match res { Res::K1 => by_st!(K1), Res::K2 => by_st!(K2), Res::K3 => by_st!(K3), Res::RA => by_st!(RA), Res::RB => by_st!(RB) }
+    }
+  }
+}
+
+// ---------------------------------------------------------------------------------------------------------------------
+// Running a path on a fresh Pie and comparing with the model
+// ---------------------------------------------------------------------------------------------------------------------
+
+#[derive(Clone, Debug, PartialEq, Eq)]
+pub struct Failure {
+  pub oracle: &'static str,
+  /// Index of the step (0-based) at which the comparison failed.
+  pub step: usize,
+  pub what: String,
+  /// Not a verdict: a prefix that was validated before behaved differently this time (non-reproducible execution).
+  pub engine: bool,
+}
+
+#[derive(Default)]
+pub struct PathOut {
+  pub failures: Vec<Failure>,
+  /// Number of individual oracle comparisons.
+  pub evals: u64,
+  /// Number of steps at which real code and model were compared.
+  pub steps: u64,
+  pub last_obs: Obs,
+  pub trace: Vec<Value>,
+}
+
+fn panic_text(p: Box<dyn Any + Send>) -> String {
+  if let Some(s) = p.downcast_ref::<&str>() { s.to_string() } else if let Some(s) = p.downcast_ref::<String>() { s.clone() } else { "<non-string panic>".into() }
+}
+
+fn obs_json(o: &Obs) -> Value { Value::Object(o.iter().map(|(k, v)| (k.to_string(), json!(v))).collect()) }
+
+macro_rules! with_kt {
+  ($kt:expr, $f:ident, $($arg:expr),*) => {
+    match $kt { KT::K1 => $f::<K1>($($arg),*), KT::K2 => $f::<K2>($($arg),*), KT::K3 => $f::<K3>($($arg),*) }
+  };
+}
+
+fn push_distinct<V: PartialEq>(v: &mut Vec<V>, x: V) { if !v.contains(&x) { v.push(x); } }
+
+/// Prefix steps: only record the real stamp of every key (state route; a no-op on the state since the map exists).
+fn record_stamps<K: KeyT>(pie: &mut Pie<Rec>, stamps: &mut Stamps) {
+  for key in 0..2u8 {
+    let k = K::mk(key);
+    let s = ResourceChecker::<K>::stamp(&MapEqualsChecker, &k, pie.resource_state_mut::<K>()).unwrap();
+    push_distinct(&mut K::stamps(stamps)[key as usize], s);
+  }
+}
+
+struct Judge<'a> { failures: &'a mut Vec<Failure>, evals: &'a mut u64, step: usize }
+
+impl Judge<'_> {
+  fn eq<T: PartialEq + Debug>(&mut self, oracle: &'static str, what: &dyn Fn() -> String, observed: T, expected: T) {
+    *self.evals += 1;
+    if observed != expected {
+      self.failures.push(Failure { oracle, step: self.step, what: format!("{}: observed {:?}, expected {:?}", what(), observed, expected), engine: false });
+    }
+  }
+}
+
+/// Full observation of the global map of `K` (only called when the model says the state of `K` is that map).
+fn observe_map<K: KeyT>(pie: &mut Pie<Rec>, m: [Option<u8>; 2], stamps: &mut Stamps, j: &mut Judge) {
+  for key in 0..2u8 {
+    let k = K::mk(key);
+    let want = opt_code(m[key as usize]);
+    let s_state = ResourceChecker::<K>::stamp(&MapEqualsChecker, &k, pie.resource_state_mut::<K>()).unwrap();
+    let (read_value, s_reader) = {
+      let mut reader = Resource::read(&k, pie.resource_state_mut::<K>()).unwrap();
+      let v = code::<K>(reader);
+      (v, ResourceChecker::<K>::stamp_reader(&MapEqualsChecker, &k, &mut reader).unwrap())
+    };
+    let (writer_value, s_writer) = {
+      let w = Resource::write(&k, pie.resource_state_mut::<K>()).unwrap();
+      let v = code::<K>(w.get());
+      (v, ResourceChecker::<K>::stamp_writer(&MapEqualsChecker, &k, w).unwrap())
+    };
+    let global_value = code::<K>(GetGlobalMap::<K>::get_global_map(pie.resource_state_mut::<K>()).get(&k));
+    j.eq("C14/read-your-writes", &|| format!("{:?} read through Resource::read", k), read_value, want);
+    j.eq("C14/read-your-writes", &|| format!("{:?} read through MapWriter::get", k), writer_value, want);
+    j.eq("C14/read-your-writes", &|| format!("{:?} read through GetGlobalMap", k), global_value, want);
+    j.eq("C14/stamp-routes", &|| format!("{:?} stamp(state)", k), code::<K>(s_state.as_ref()), want);
+    j.eq("C14/stamp-routes", &|| format!("{:?} stamp_reader", k), code::<K>(s_reader.as_ref()), want);
+    j.eq("C14/stamp-routes", &|| format!("{:?} stamp_writer", k), code::<K>(s_writer.as_ref()), want);
+    j.eq("C14/stamp-routes", &|| format!("{:?} stamp(state) vs stamp_reader", k), &s_state, &s_reader);
+    j.eq("C14/stamp-routes", &|| format!("{:?} stamp(state) vs stamp_writer", k), &s_state, &s_writer);
+    // Check against every stamp value of the alphabet and every real stamp recorded earlier on this path.
+    let mut candidates: Vec<Option<K::Value>> = vec![None, Some(K::val(0)), Some(K::val(1))];
+    candidates.extend(K::stamps(stamps)[key as usize].iter().cloned());
+    for s in &candidates {
+      let consistent = ResourceChecker::<K>::check(&MapEqualsChecker, &k, pie.resource_state_mut::<K>(), s).unwrap().is_none();
+      j.eq("C14/check", &|| format!("{:?} check against stamp {:?} consistent?", k, s), consistent, code::<K>(s.as_ref()) == want);
+    }
+    for s in [s_state, s_reader, s_writer] { push_distinct(&mut K::stamps(stamps)[key as usize], s); }
+  }
+}
+
+/// Side-effect free comparison of the whole typed state with the model.
+fn observe_snapshot(pie: &Pie<Rec>, model: &Model, tick: u32, typed: bool, j: &mut Judge) {
+  macro_rules! one {
+    ($r:ty, $res:expr) => {{
+      let slot = model.slots[$res.idx()];
+      j.eq("C14/state-isolation", &|| format!("boxed state of resource type {}", $res.name()), describe_res::<$r>(pie), Desc::Slot(slot));
+      if typed {
+        j.eq("C14/state-isolation", &|| format!("get::<S>() for S in [Shared, Other, Map<K1>, Map<K2>, Map<K3>] on resource type {}", $res.name()),
+          typed_gets::<$r>(pie), expected_typed_gets(slot));
+      }
+    }};
+  }
+  one!(K1, Res::K1);
+  one!(K2, Res::K2);
+  one!(K3, Res::K3);
+  one!(RA, Res::RA);
+  one!(RB, Res::RB);
+  j.eq("C14/state-isolation", &|| "boxed state of the harness resource type Tick".to_string(), describe_res::<Tick>(pie), Desc::TickMap(Some(tick), 1));
+}
+
+/// Executes `ops` on a fresh `Pie`, comparing every operation's observations with the model, and the complete
+/// observable state after the last operation.
+pub fn run_path(ops: &[Op], trace: bool) -> PathOut {
+  let mut out = PathOut::default();
+  let mut pie = Pie::with_tracker(Rec::default());
+  let mut model = Model::initial();
+  let mut stamps = Stamps::default();
+  for (i, &op) in ops.iter().enumerate() {
+    let last = i + 1 == ops.len();
+    let tick = (i + 1) as u32;
+    let before = model;
+    let expected = model.apply(op, tick);
+    let observed = catch_unwind(AssertUnwindSafe(|| {
+      GetGlobalMap::<Tick>::get_global_map_mut(pie.resource_state_mut::<Tick>()).insert(Tick, tick);
+      exec_op(&mut pie, op)
+    }));
+    out.steps += 1;
+    let observed = match observed {
+      Ok(o) => o,
+      Err(p) => {
+        out.failures.push(Failure { oracle: "C14/panic", step: i, what: format!("panic in {} from state [{}]: {}", op.text(), before.text(), panic_text(p)), engine: !last });
+        return out;
+      }
+    };
+    out.evals += expected.len().max(1) as u64;
+    if trace {
+      out.trace.push(json!({"step": i + 1, "op": op.text(), "observed": obs_json(&observed), "expected": obs_json(&expected), "model_after": model.text()}));
+    }
+    if observed != expected {
+      out.failures.push(Failure {
+        oracle: "C14/op-result", step: i, engine: !last,
+        what: format!("{} from state [{}]: observed {:?}, expected {:?}", op.text(), before.text(), observed, expected),
+      });
+      out.last_obs = observed;
+      return out;
+    }
+    let rest = catch_unwind(AssertUnwindSafe(|| {
+      let mut failures = Vec::new();
+      let mut evals = 0u64;
+      if last {
+        let mut j = Judge { failures: &mut failures, evals: &mut evals, step: i };
+        observe_snapshot(&pie, &model, tick, true, &mut j);
+        for kt in ALL_KT {
+          if let Some(m) = model.map_of(kt) { with_kt!(kt, observe_map, &mut pie, m, &mut stamps, &mut j); }
+        }
+        // The observations above must not have changed anything.
+        observe_snapshot(&pie, &model, tick, false, &mut j);
+      } else {
+        for kt in ALL_KT {
+          if model.map_of(kt).is_some() { with_kt!(kt, record_stamps, &mut pie, &mut stamps); }
+        }
+      }
+      (failures, evals)
+    }));
+    match rest {
+      Ok((failures, evals)) => {
+        out.evals += evals;
+        if !failures.is_empty() {
+          let state = model.text();
+          out.failures.extend(failures.into_iter().map(|mut f| { f.what = format!("after {} reaching state [{}]: {}", op.text(), state, f.what); f }));
+          out.last_obs = observed;
+          return out;
+        }
+      }
+      Err(p) => {
+        out.failures.push(Failure { oracle: "C14/panic", step: i, what: format!("panic while observing the state after {}: {}", op.text(), panic_text(p)), engine: !last });
+        return out;
+      }
+    }
+    if last { out.last_obs = observed; }
+  }
+  out
+}
+
+// ---------------------------------------------------------------------------------------------------------------------
+// Search
+// ---------------------------------------------------------------------------------------------------------------------
+
+#[derive(Default)]
+struct Totals {
+  evals: u64,
+  steps: u64,
+  paths: u64,
+  outcomes: BTreeSet<(u16, Obs)>,
+  /// (task index, failures)
+  failed: Vec<(usize, Vec<Failure>)>,
+}
+
+impl Totals {
+  fn merge(&mut self, o: Totals) {
+    self.evals += o.evals;
+    self.steps += o.steps;
+    self.paths += o.paths;
+    self.outcomes.extend(o.outcomes);
+    self.failed.extend(o.failed);
+  }
+}
+
+fn n_threads() -> usize { std::thread::available_parallelism().map(|n| n.get()).unwrap_or(4).clamp(1, 16) }
+
+/// Runs `n_tasks` paths in parallel; `path_of(task)` yields the op indices of the path (None = skip). Deterministic:
+/// results are merged by task index. Returns `(totals, completed)`; `completed` is false if the deadline was hit.
+fn run_parallel(n_tasks: usize, ops: &[Op], deadline: Instant, path_of: &(dyn Fn(usize) -> Option<Vec<u16>> + Sync)) -> (Totals, bool) {
+  let next = AtomicUsize::new(0);
+  let timed_out = AtomicUsize::new(0);
+  let mut totals = Totals::default();
+  let results: Vec<Totals> = std::thread::scope(|scope| {
+    let handles: Vec<_> = (0..n_threads()).map(|_| scope.spawn(|| {
+      let mut t = Totals::default();
+      let mut buf: Vec<Op> = Vec::new();
+      loop {
+        let start = next.fetch_add(64, Ordering::Relaxed);
+        if start >= n_tasks { break; }
+        if Instant::now() > deadline { timed_out.store(1, Ordering::Relaxed); break; }
+        for task in start..(start + 64).min(n_tasks) {
+          let Some(path) = path_of(task) else { continue; };
+          buf.clear();
+          buf.extend(path.iter().map(|&i| ops[i as usize]));
+          let out = run_path(&buf, false);
+          t.paths += 1;
+          t.evals += out.evals;
+          t.steps += out.steps;
+          if out.failures.is_empty() {
+            t.outcomes.insert((*path.last().unwrap(), out.last_obs));
+          } else {
+            t.failed.push((task, out.failures));
+          }
+        }
+      }
+      t
+    })).collect();
+    handles.into_iter().map(|h| h.join().unwrap_or_else(|_| engine_error("C14: a worker thread of the harness panicked"))).collect()
+  });
+  for r in results { totals.merge(r); }
+  totals.failed.sort_by_key(|(task, _)| *task);
+  (totals, timed_out.load(Ordering::Relaxed) == 0)
+}
+
+struct Found { ops: Vec<Op>, failure: Failure }
+
+struct SearchOut {
+  states: usize,
+  transitions: u64,
+  nontrivial: u64,
+  levels: Vec<usize>,
+  max_depth: usize,
+  fixed_point: bool,
+  enum_depth: usize,
+  enum_paths: u64,
+  enum_complete: bool,
+  totals: Totals,
+  found: Vec<Found>,
+  deepest_path: Vec<Op>,
+}
+
+fn search(tier: Tier, ops: &[Op], budget_s: f64, enum_depth: usize) -> SearchOut {
+  let deadline = Instant::now() + std::time::Duration::from_secs_f64(budget_s);
+  let mut states: Vec<Model> = vec![Model::initial()];
+  let mut paths: Vec<Vec<u16>> = vec![Vec::new()];
+  let mut index: HashMap<Model, usize> = HashMap::new();
+  index.insert(Model::initial(), 0);
+  let mut frontier: Vec<usize> = vec![0];
+  let mut out = SearchOut {
+    states: 0, transitions: 0, nontrivial: 0, levels: vec![1], max_depth: 0, fixed_point: false,
+    enum_depth, enum_paths: 0, enum_complete: true, totals: Totals::default(), found: Vec::new(), deepest_path: Vec::new(),
+  };
+  let _ = tier;
+  let n_ops = ops.len();
+  // Part 1: breadth-first search over model states to a fixed point.
+  let mut depth = 0usize;
+  while !frontier.is_empty() {
+    let n_tasks = frontier.len() * n_ops;
+    let path_of = |task: usize| -> Option<Vec<u16>> {
+      let mut p = paths[frontier[task / n_ops]].clone();
+      p.push((task % n_ops) as u16);
+      Some(p)
+    };
+    let (totals, completed) = run_parallel(n_tasks, ops, deadline, &path_of);
+    let failed: BTreeSet<usize> = totals.failed.iter().map(|(t, _)| *t).collect();
+    for (task, failures) in &totals.failed {
+      let p = path_of(*task).unwrap();
+      for f in failures {
+        out.found.push(Found { ops: p.iter().map(|&i| ops[i as usize]).collect(), failure: f.clone() });
+      }
+    }
+    out.transitions += totals.paths;
+    out.totals.merge(totals);
+    if !completed { return finish_states(out, &states, &paths, ops); }
+    let mut next_frontier = Vec::new();
+    for task in 0..n_tasks {
+      let si = frontier[task / n_ops];
+      let oi = task % n_ops;
+      let mut m = states[si];
+      let _ = m.apply(ops[oi], (depth + 1) as u32);
+      if m != states[si] { out.nontrivial += 1; }
+      if failed.contains(&task) { continue; } // do not build on a transition the implementation got wrong
+      if !index.contains_key(&m) {
+        let id = states.len();
+        index.insert(m, id);
+        states.push(m);
+        let mut p = paths[si].clone();
+        p.push(oi as u16);
+        paths.push(p);
+        next_frontier.push(id);
+      }
+    }
+    depth += 1;
+    if !next_frontier.is_empty() { out.levels.push(next_frontier.len()); out.max_depth = depth; }
+    frontier = next_frontier;
+  }
+  out.fixed_point = true;
+  // Part 2: all paths up to `enum_depth` without state merging (covers pie's dependency store, which the model state
+  // does not contain). Paths extending a failed path are skipped.
+  let mut failed_prefixes: BTreeSet<Vec<u16>> = BTreeSet::new();
+  for d in 1..=enum_depth {
+    let n_tasks = n_ops.pow(d as u32);
+    let decode = |task: usize| -> Vec<u16> {
+      let mut p = vec![0u16; d];
+      let mut t = task;
+      for slot in p.iter_mut().rev() { *slot = (t % n_ops) as u16; t /= n_ops; }
+      p
+    };
+    let fp = &failed_prefixes;
+    let path_of = |task: usize| -> Option<Vec<u16>> {
+      let p = decode(task);
+      if !fp.is_empty() && (1..d).any(|l| fp.contains(&p[..l])) { return None; }
+      Some(p)
+    };
+    let (totals, completed) = run_parallel(n_tasks, ops, deadline, &path_of);
+    let mut new_failed = Vec::new();
+    for (task, failures) in &totals.failed {
+      let p = decode(*task);
+      for f in failures {
+        out.found.push(Found { ops: p.iter().map(|&i| ops[i as usize]).collect(), failure: f.clone() });
+      }
+      new_failed.push(p);
+    }
+    out.enum_paths += totals.paths;
+    out.totals.merge(totals);
+    failed_prefixes.extend(new_failed);
+    if !completed { out.enum_complete = false; break; }
+  }
+  finish_states(out, &states, &paths, ops)
+}
+
+fn finish_states(mut out: SearchOut, states: &[Model], paths: &[Vec<u16>], ops: &[Op]) -> SearchOut {
+  out.states = states.len();
+  out.deepest_path = paths.last().map(|p| p.iter().map(|&i| ops[i as usize]).collect()).unwrap_or_default();
+  out
+}
+
+// ---------------------------------------------------------------------------------------------------------------------
+// Entry points
+// ---------------------------------------------------------------------------------------------------------------------
+
+fn with_quiet_panics<T>(f: impl FnOnce() -> T) -> T {
+  let old = std::panic::take_hook();
+  std::panic::set_hook(Box::new(|_| {}));
+  let r = f();
+  std::panic::set_hook(old);
+  r
+}
+
+fn violation_of(ops: &[Op], f: &Failure) -> Violation {
+  let cut = &ops[..(f.step + 1).min(ops.len())];
+  Violation {
+    property: "C14".into(),
+    oracle: f.oracle.into(),
+    key: String::new(),
+    what: format!("after {} operation(s): {}", cut.len(), f.what),
+    replay: json!({"ops": cut.iter().map(|o| o.text()).collect::<Vec<_>>()}),
+  }
+}
+
+fn sample_scripts() -> Vec<Vec<&'static str>> {
+  vec![
+    vec!["map:K1:0:ctx_write:td:insert:1", "map:K2:0:global_map:-:insert:0", "read:K1:0:ctx_read:td", "read:K2:0:res_read:-", "map:K1:0:create_writer:td:remove:-", "read:K1:0:stamp:-"],
+    vec!["map:K1:1:global_map:-:or_insert:1", "typed:K1:Other:set:1", "typed:K1:Shared:get:-", "read:K1:1:global_map:-", "typed:K1:Other:get:-"],
+    vec!["typed:RA:Shared:set:1", "typed:RB:Shared:get:-", "typed:RB:Other:get_or_set_default_mut:-", "typed:RA:Other:get:-", "typed:RA:Shared:get_mut:-", "typed:RB:Shared:get_or_set_default:-"],
+    vec!["map:K2:1:res_write:-:insert:1", "map:K1:1:create_writer:td:or_insert:0", "read:K2:1:task_writer_get:td", "map:K2:1:ctx_write:td:remove:-", "read:K2:1:check:-"],
+  ]
+}
+
+fn run_replay(args: &Args, path: &std::path::Path) -> i32 {
+  let text = std::fs::read_to_string(path).unwrap_or_else(|e| engine_error(&format!("cannot read replay file {}: {}", path.display(), e)));
+  let v: Value = serde_json::from_str(&text).unwrap_or_else(|e| engine_error(&format!("replay file does not parse: {}", e)));
+  let r = v.get("replay").unwrap_or(&v);
+  let list = r.get("ops").and_then(|o| o.as_array()).unwrap_or_else(|| engine_error("replay object lacks array 'ops'"));
+  let ops: Vec<Op> = list.iter().map(|s| {
+    let s = s.as_str().unwrap_or_else(|| engine_error("replay 'ops' must be strings"));
+    Op::parse(s).unwrap_or_else(|| engine_error(&format!("replay: cannot parse operation '{}'", s)))
+  }).collect();
+  let (a, b) = with_quiet_panics(|| (run_path(&ops, true), run_path(&ops, true)));
+  if a.failures != b.failures || a.trace != b.trace {
+    engine_error(&format!("C14 replay: two executions of the same path differ:\n{:?}\n{:?}", a.failures, b.failures));
+  }
+  for t in &a.trace { println!("replay: {}", t); }
+  if a.failures.is_empty() {
+    println!("replay: no violation");
+    return 0;
+  }
+  // Replay never touches the evidence file of the property; it only prints its verdict.
+  let _ = args;
+  for f in &a.failures {
+    println!("replay: still failing: {} {}", f.oracle, f.what);
+  }
+  println!("VIOLATION property=C14 replay={}", path.display());
+  println!("  oracle={} key= what={}", a.failures[0].oracle, a.failures[0].what);
+  1
+}
+
+pub fn run(args: &Args) -> i32 {
+  if let Some(path) = &args.replay {
+    return run_replay(args, path);
+  }
+  let mut rep = Report::new(args);
+  let ops = alphabet(args.tier);
+  for (i, op) in ops.iter().enumerate() {
+    if Op::parse(&op.text()) != Some(*op) { engine_error(&format!("C14: operation {} ({}) does not round-trip through its text form", i, op.text())); }
+  }
+  let (budget_s, enum_depth) = match args.tier { Tier::Quick => (14.0, 2), Tier::Thorough => (540.0, 3) };
+  let enum_depth = std::env::var("VERIF_C14_ENUM_DEPTH").ok().and_then(|s| s.parse().ok()).unwrap_or(enum_depth);
+  let out = with_quiet_panics(|| search(args.tier, &ops, budget_s, enum_depth));
+
+  // Samples: scripted paths plus the representative path of the last state discovered.
+  let mut samples = Vec::new();
+  with_quiet_panics(|| {
+    for script in sample_scripts() {
+      let path: Vec<Op> = script.iter().map(|s| Op::parse(s).unwrap_or_else(|| engine_error(&format!("C14: bad sample op {}", s)))).collect();
+      let o = run_path(&path, true);
+      samples.push(json!({"kind": "scripted", "steps": o.trace, "failures": o.failures.iter().map(|f| f.what.clone()).collect::<Vec<_>>()}));
+    }
+    if !out.deepest_path.is_empty() {
+      let o = run_path(&out.deepest_path, true);
+      samples.push(json!({"kind": "representative path of the last state discovered by the BFS", "steps": o.trace}));
+    }
+  });
+
+  let exhaustive = out.fixed_point && out.enum_complete;
+  rep.set("states", json!(out.states));
+  rep.set("transitions", json!(out.transitions));
+  rep.set("paths_without_merging", json!(out.enum_paths));
+  rep.set("traces_validated_against_impl", json!(out.totals.steps));
+  rep.set("full_observation_steps", json!(out.transitions + out.enum_paths));
+  rep.set("evaluations", json!(out.totals.evals));
+  rep.set("distinct_nontrivial", json!(out.nontrivial));
+  rep.set("distinct_nontrivial_rule", json!("distinct (model state, operation) pairs whose operation changes the model state (everything else is a self loop: a read, or a write of what is already there)"));
+  rep.set("distinct_outcomes", json!(out.totals.outcomes.len()));
+  rep.set("distinct_outcomes_rule", json!("distinct (operation, complete observation vector) pairs seen on paths without failure"));
+  rep.set("samples", Value::Array(samples));
+  rep.set("exhaustive", json!(exhaustive));
+  rep.set("rule", json!(format!(
+    "BFS over model states (typed state of K1,K2,K3,RA,RB incl. the global maps) {}; every (state, op) executed on a fresh Pie by replaying the state's representative path; plus all op paths of length <= {} without state merging ({})",
+    if out.fixed_point { "to a fixed point" } else { "stopped by the wall-time budget before the fixed point" }, out.enum_depth,
+    if out.enum_complete { "complete" } else { "stopped by the wall-time budget" })));
+  rep.set("bounds", json!({
+    "operations": ops.len(),
+    "key_types": if args.tier == Tier::Thorough { json!(["K1(u8)->u8", "K2(u8)->u8", "K3(bool)->String"]) } else { json!(["K1(u8)->u8", "K2(u8)->u8"]) },
+    "keys_per_type": 2, "values_per_type": 2,
+    "write_routes": ["Context::write", "Context::create_writer+written_to", "resource_state_mut().get_global_map_mut()", "Resource::write(state) MapWriter outside a task"],
+    "map_ops": ["insert", "remove via entry()", "entry().or_insert"],
+    "read_routes": ["Context::read", "MapWriter::get/get_mut in task", "get_global_map", "get_global_map_mut", "Resource::read", "Resource::write+get", "MapEqualsChecker::stamp", "MapEqualsChecker::check"],
+    "session_modes_for_in_task_routes": ["top-down", "bottom-up"],
+    "typed_state": {"resource_types": ["RA", "RB", "K1"], "state_types": if args.tier == Tier::Thorough { json!(["Shared(u8)", "Other(bool)", "HashMap<K1,u8> (on RA and K1)"]) } else { json!(["Shared(u8)", "Other(bool)"]) },
+      "ops": ["get", "get_mut", "set", "get_boxed", "get_boxed_mut", "set_boxed", "get_or_set_default", "get_or_set_default_mut"]},
+    "bfs_fixed_point": out.fixed_point, "bfs_depth": out.max_depth, "bfs_states_per_level": out.levels,
+    "unmerged_path_depth": out.enum_depth, "unmerged_paths_complete": out.enum_complete,
+    "wall_budget_s": budget_s, "threads": n_threads(),
+  }));
+  rep.assume("One task identity per (key type, key) performs all in-task accesses of that key, so pie's overlapping-write / hidden-dependency detection (not part of C14) is never triggered.");
+  rep.assume("Model state excludes pie's dependency store; the BFS uses one representative path per model state, complemented by all unmerged paths up to the stated depth.");
+
+  let mut engine_failures = Vec::new();
+  for f in &out.found {
+    if f.failure.engine { engine_failures.push(f); } else { rep.violation(violation_of(&f.ops, &f.failure)); }
+  }
+  if rep.violation_count() == 0 {
+    if let Some(f) = engine_failures.first() {
+      engine_error(&format!("C14: {} path(s) deviated in a prefix that was validated before (non-reproducible execution), first: {} ops {:?}",
+        engine_failures.len(), f.failure.what, f.ops.iter().map(|o| o.text()).collect::<Vec<_>>()));
+    }
+  }
+  rep.finish()
+}
+
+#[cfg(test)]
+mod tests {
+  use super::*;
+
+  fn ins(kt: KT, key: u8, v: u8) -> Op { Op::Map { kt, key, route: WRoute::GlobalMap, bottom_up: false, op: MapOp::Insert(v) } }
+  fn read(kt: KT, key: u8) -> Op { Op::Read { kt, key, route: RRoute::GlobalMap, bottom_up: false } }
+
+  #[test]
+  fn model_read_your_writes_and_no_aliasing() {
+    let mut m = Model::initial();
+    assert_eq!(m.apply(read(KT::K1, 0), 1), vec![("read", -1)]);
+    assert_eq!(m.apply(ins(KT::K1, 0, 1), 2), vec![("ret", -1), ("after_get", 1)]);
+    assert_eq!(m.apply(read(KT::K1, 0), 3), vec![("read", 1)]);
+    assert_eq!(m.apply(read(KT::K2, 0), 4), vec![("read", -1)]);
+    assert_eq!(m.apply(read(KT::K1, 1), 5), vec![("read", -1)]);
+    assert_eq!(m.apply(ins(KT::K1, 0, 0), 6), vec![("ret", 1), ("after_get", 0)]);
+    assert_eq!(m.map_of(KT::K1), Some([Some(0), None]));
+    assert_eq!(m.map_of(KT::K2), Some([None, None]));
+    assert_eq!(m.map_of(KT::K3), None);
+  }
+
+  #[test]
+  fn model_remove_and_or_insert() {
+    let mut m = Model::initial();
+    let op = |op| Op::Map { kt: KT::K2, key: 1, route: WRoute::ResWrite, bottom_up: false, op };
+    assert_eq!(m.apply(op(MapOp::Remove), 1), vec![("ret", -1), ("after_get", -1), ("stamp_writer", -1)]);
+    assert_eq!(m.apply(op(MapOp::OrInsert(1)), 2), vec![("ret", 1), ("after_get", 1), ("stamp_writer", 1)]);
+    assert_eq!(m.apply(op(MapOp::OrInsert(0)), 3), vec![("ret", 1), ("after_get", 1), ("stamp_writer", 1)]);
+    assert_eq!(m.apply(op(MapOp::Remove), 4), vec![("ret", 1), ("after_get", -1), ("stamp_writer", -1)]);
+  }
+
+  #[test]
+  fn model_typed_state_semantics() {
+    let t = |res, st, op| Op::Typed { res, st, op };
+    let mut m = Model::initial();
+    // get with nothing stored / non-matching type: None and no change
+    assert_eq!(m.apply(t(Res::RA, ST::Shared, TypedOp::Get), 1), vec![("get", -1)]);
+    m.apply(t(Res::RA, ST::Shared, TypedOp::Set(1)), 2);
+    assert_eq!(m.apply(t(Res::RA, ST::Other, TypedOp::Get), 3), vec![("get", -1)]);
+    assert_eq!(m.slots[Res::RA.idx()], Slot::Shared(1));
+    // another resource type with the same state type sees nothing
+    assert_eq!(m.apply(t(Res::RB, ST::Shared, TypedOp::Get), 4), vec![("get", -1)]);
+    // get_or_set_default with non-matching type replaces by the default
+    assert_eq!(m.apply(t(Res::RA, ST::Other, TypedOp::Gosd), 5), vec![("get_or_set_default", 0)]);
+    assert_eq!(m.slots[Res::RA.idx()], Slot::Other(false));
+    // matching type: kept
+    m.apply(t(Res::RA, ST::Other, TypedOp::Set(1)), 6);
+    assert_eq!(m.apply(t(Res::RA, ST::Other, TypedOp::Gosd), 7), vec![("get_or_set_default", 1)]);
+    // get_mut mutates only a matching type
+    assert_eq!(m.apply(t(Res::RA, ST::Shared, TypedOp::GetMut), 8), vec![("get_mut", -1)]);
+    assert_eq!(m.apply(t(Res::RA, ST::Other, TypedOp::GetMut), 9), vec![("get_mut", 1)]);
+    assert_eq!(m.slots[Res::RA.idx()], Slot::Other(false));
+    assert_eq!(m.slots[Res::RB.idx()], Slot::Absent);
+  }
+
+  #[test]
+  fn model_typed_state_on_a_key_type_wipes_and_is_wiped() {
+    let mut m = Model::initial();
+    m.apply(ins(KT::K1, 0, 1), 1);
+    m.apply(Op::Typed { res: Res::K1, st: ST::Other, op: TypedOp::Set(1) }, 2);
+    assert_eq!(m.map_of(KT::K1), None);
+    assert_eq!(m.apply(read(KT::K1, 0), 3), vec![("read", -1)]);
+    assert_eq!(m.slots[Res::K1.idx()], Slot::Map(KT::K1, [None, None]));
+    // a map of K1's type stored under RA is not K1's map
+    m.apply(Op::Typed { res: Res::RA, st: ST::M1, op: TypedOp::Set(1) }, 4);
+    assert_eq!(m.map_of(KT::K1), Some([None, None]));
+    // stored under K1 it is
+    m.apply(Op::Typed { res: Res::K1, st: ST::M1, op: TypedOp::Set(1) }, 5);
+    assert_eq!(m.map_of(KT::K1), Some([Some(1), None]));
+  }
+
+  #[test]
+  fn op_text_round_trips_and_alphabet_sizes() {
+    for tier in [Tier::Quick, Tier::Thorough] {
+      let ops = alphabet(tier);
+      let set: BTreeSet<Op> = ops.iter().copied().collect();
+      assert_eq!(set.len(), ops.len());
+      for op in ops { assert_eq!(Op::parse(&op.text()), Some(op)); }
+    }
+    assert!(alphabet(Tier::Quick).len() < alphabet(Tier::Thorough).len());
+  }
+
+  #[test]
+  fn expected_typed_gets_positions() {
+    assert_eq!(expected_typed_gets(Slot::Absent), [-1; 5]);
+    assert_eq!(expected_typed_gets(Slot::Shared(1)), [1, -1, -1, -1, -1]);
+    assert_eq!(expected_typed_gets(Slot::Map(KT::K2, [Some(0), None])), [-1, -1, -1, 103, -1]);
+  }
+
+  #[test]
+  fn real_pie_agrees_on_a_scripted_path() {
+    for script in sample_scripts() {
+      let path: Vec<Op> = script.iter().map(|s| Op::parse(s).unwrap()).collect();
+      let out = run_path(&path, false);
+      assert!(out.failures.is_empty(), "{:?}", out.failures);
+    }
+  }
+}
